@@ -470,15 +470,15 @@ class IncomerTls(Incomer):
             # ex.args[0] is always ex.errno for better compat
             if  ex.args[0] in (ssl.SSL_ERROR_WANT_READ, ssl.SSL_ERROR_WANT_WRITE):
                 return None  # blocked waiting for data
-            elif ex.args[0] in (errno.ECONNRESET,
-                                errno.ENETRESET,
-                                errno.ENETUNREACH,
-                                errno.EHOSTUNREACH,
-                                errno.ENETDOWN,
-                                errno.EHOSTDOWN,
-                                errno.ETIMEDOUT,
-                                errno.ECONNREFUSED,
-                                ssl.SSLEOFError):
+            elif (isinstance(ex, ssl.SSLEOFError) or
+                  ex.args[0] in (errno.ECONNRESET,
+                                 errno.ENETRESET,
+                                 errno.ENETUNREACH,
+                                 errno.EHOSTUNREACH,
+                                 errno.ENETDOWN,
+                                 errno.EHOSTDOWN,
+                                 errno.ETIMEDOUT,
+                                 errno.ECONNREFUSED)):
                 emsg = ("socket.error = {0}: IncomerTLS at {1} while receiving"
                         " from {2}\n".format(ex, self.ha, self.ca))
                 console.profuse(emsg)
@@ -524,15 +524,15 @@ class IncomerTls(Incomer):
             # ex.args[0] is always ex.errno for better compat
             if ex.args[0] in (ssl.SSL_ERROR_WANT_READ, ssl.SSL_ERROR_WANT_WRITE):
                 result = 0  # blocked try again
-            elif ex.args[0] in (errno.ECONNRESET,
-                                errno.ENETRESET,
-                                errno.ENETUNREACH,
-                                errno.EHOSTUNREACH,
-                                errno.ENETDOWN,
-                                errno.EHOSTDOWN,
-                                errno.ETIMEDOUT,
-                                errno.ECONNREFUSED,
-                                ssl.SSLEOFError):
+            elif (isinstance(ex, ssl.SSLEOFError) or
+                  ex.args[0] in (errno.ECONNRESET,
+                                 errno.ENETRESET,
+                                 errno.ENETUNREACH,
+                                 errno.EHOSTUNREACH,
+                                 errno.ENETDOWN,
+                                 errno.EHOSTDOWN,
+                                 errno.ETIMEDOUT,
+                                 errno.ECONNREFUSED)):
                 emsg = ("socket.error = {0}: IncomerTLS at {1} while "
                         "sending to {2}\n".format(ex, self.ha, self.ca))
                 console.profuse(emsg)
